@@ -125,6 +125,43 @@ SpecObs(pre, o, post) ==
            ELSE "na"]
 
 ---------------------------------------------------------------------------
+(* C19, query half: what the 19 queries report (record q written by the     *)
+(* harness: scalars, every page of every list query in key and offset mode, *)
+(* single-item lookups of present and absent keys) against the state.       *)
+RECURSIVE Flat(_)
+Flat(pp) == IF pp = <<>> THEN <<>> ELSE Head(pp) \o Flat(Tail(pp))
+PagesOK(pp, limit, S) ==
+  LET cat == Flat(pp) IN
+  /\ Len(cat) = Cardinality(S) /\ {cat[i] : i \in DOMAIN cat} = S           \* every entry exactly once
+  /\ \A i \in DOMAIN pp : Len(pp[i]) <= limit /\ (i < Len(pp) => Len(pp[i]) = limit)
+ListOK(w, S) == /\ w.keyres = "ok" /\ w.offres = "ok"
+                /\ PagesOK(w.key, w.limit, S) /\ PagesOK(w.offset, w.limit, S)
+                /\ \A i \in DOMAIN w.totals : w.totals[i] = Cardinality(S)
+HasKey(s, reg, key) ==
+  CASE reg = "attesters" -> key \in s.attesters
+    [] reg = "limits"    -> \E x \in s.limits : x.denom = key
+    [] reg = "msgrs"     -> HasMsgr(s, key)
+    [] reg = "pairs"     -> HasPair(s, key.d, key.t)
+    [] reg = "used"      -> key \in s.used
+EntryOf(s, reg, key) ==
+  CASE reg = "attesters" -> key
+    [] reg = "limits"    -> CHOOSE x \in s.limits : x.denom = key
+    [] reg = "msgrs"     -> MsgrOf(s, key)
+    [] reg = "pairs"     -> PairOf(s, key.d, key.t)
+    [] reg = "used"      -> key
+QueryOK(q, s) ==
+  /\ ~q.panic
+  /\ <<q.owner, q.attMgr, q.pauser, q.tokCtl>> = <<s.owner, s.attMgr, s.pauser, s.tokCtl>>
+  /\ <<q.pausedBM, q.pausedSR, q.threshold, q.maxBody, q.nextNonce>> = <<s.pausedBM, s.pausedSR, s.threshold, s.maxBody, s.nextNonce>>
+  /\ <<q.localDomain, q.msgVersion, q.burnVersion>> = <<4, 0, 0>>
+  /\ ListOK(q.attesters, s.attesters) /\ ListOK(q.limits, s.limits) /\ ListOK(q.pairs, s.pairs)
+  /\ ListOK(q.msgrs, s.msgrs) /\ ListOK(q.used, s.used)
+  /\ \A i \in DOMAIN q.gets :
+        LET g == q.gets[i] IN
+        /\ g.found <=> HasKey(s, g.reg, g.key)
+        /\ g.found => g.val = EntryOf(s, g.reg, g.key)
+
+---------------------------------------------------------------------------
 (* Lenses.  A(p, ..) : the property speaks about this case.  L(p, ..) : it  *)
 (* holds on this case.                                                      *)
 
@@ -235,6 +272,8 @@ LensR(p, pre, m, f, o, r) ==
          /\ res = exp.res
          /\ <<o.post.attesters, o.post.limits, o.post.pairs, o.post.msgrs, o.post.used>>
               = <<r.post.attesters, r.post.limits, r.post.pairs, r.post.msgrs, r.post.used>>
+         \* queries reflect the state (when the observation includes the query view)
+         /\ "q" \in DOMAIN o => QueryOK(o.q, o.post)
     [] p = "C20" -> o.res # "panic"
 
 Lens(p, pre, m, f, o) == LensR(p, pre, m, f, o, Run(pre, m, f))
